@@ -17,6 +17,7 @@ package pql
 import (
 	"bytes"
 	"fmt"
+	"math"
 	"sort"
 	"strconv"
 	"strings"
@@ -84,15 +85,35 @@ func (q *Query) endConditional() {
 	if len(q.conditional) != 5 {
 		panic(fmt.Sprintf("conditional of wrong length: %#v", q.conditional))
 	}
-	low, _ := strconv.ParseInt(q.conditional[0], 10, 64)
+	low, err := strconv.ParseInt(q.conditional[0], 10, 64)
+	if err != nil {
+		panic(fmt.Sprintf("%s: %s", intOutOfRangeError, err))
+	}
 	field := q.conditional[2]
-	high, _ := strconv.ParseInt(q.conditional[4], 10, 64)
+	high, err := strconv.ParseInt(q.conditional[4], 10, 64)
+	if err != nil {
+		panic(fmt.Sprintf("%s: %s", intOutOfRangeError, err))
+	}
 
+	// A strict bound at an int64 limit (x > MaxInt64, x < MinInt64) denotes an
+	// empty range; low++ / high-- would wrap around and match almost everything.
+	empty := false
 	if q.conditional[1] == "<" {
-		low++
+		if low == math.MaxInt64 {
+			empty = true
+		} else {
+			low++
+		}
 	}
 	if q.conditional[3] == "<" {
-		high--
+		if high == math.MinInt64 {
+			empty = true
+		} else {
+			high--
+		}
+	}
+	if empty {
+		low, high = 1, 0
 	}
 
 	elem := q.lastCallStackElem()
@@ -129,6 +150,14 @@ func (q *Query) addVal(val interface{}) {
 		panic(fmt.Sprintf("addVal called with '%s' when lastField is empty", val))
 	}
 	if elem.inList {
+		if elem.lastCond != ILLEGAL {
+			list := elem.call.Args[elem.lastField].(*Condition).Value.([]interface{})
+			elem.call.Args[elem.lastField] = &Condition{
+				Op:    elem.lastCond,
+				Value: append(list, val),
+			}
+			return
+		}
 		list := elem.call.Args[elem.lastField].([]interface{})
 		elem.call.Args[elem.lastField] = append(list, val)
 		return
